@@ -10,5 +10,5 @@ mkdir -p bin work evidence replays
 ./bin/extract "${VERIF_REPO:-/repo}" lean/SdbModel/Generated work/facts.json
 (cd lean && lake build SdbModel SdbModel.AuditCmd driver)
 cp "${VERIF_REPO:-/repo}/go.sum" harness/go.sum
-(cd harness && go build -tags verif -o ../bin/harness .)
+(cd harness && go build -tags verif -o ../bin/harness . && go test -c -tags verif -o ../bin/harness.test .)
 echo setup-ok
